@@ -20,6 +20,7 @@ RULE = (
     "component, ties accepted -> relabel 0..n-1 / 0..m-1 with old labels recorded); also convert_labels_to_integers "
     "(isomorphism, attributes, recorded labels), subhypergraph, dual and dual-of-dual, <<, complement, cut_to_order for "
     "every order (XGIError above the maximum), largest_connected_hypergraph (both modes), and on the closure complex "
+    "SimplicialComplex.cleanup is judged over all 16 flag combinations as well; everything is evaluated again after an in-place edit. "
     "from_max_simplices and k_skeleton. non-trivial = the input has >= 2 components or a duplicate edge or a singleton"
 )
 BUDGET = {"quick": 1600, "thorough": 40000}
@@ -232,5 +233,35 @@ def _evaluate(H, case, ctx):
             C(False, ("k_skeleton", "no-error-above-maximum"), "")
         except XGIError:
             pass
+    # ---- cleanup of a simplicial complex: isolates / connected / relabel, copy and in place
+    if sm:
+        snodes = list(S.nodes)
+        for iso, con, rel, ip in itertools.product((False, True), (False, True), (False, True), (False, True)):
+            T = S.copy()
+            try:
+                R = T.cleanup(isolates=iso, connected=con, relabel=rel, in_place=ip)
+            except Exception as e:  # noqa: BLE001
+                C(False, ("sc-cleanup", "raised", type(e).__name__), "isolates=%s connected=%s relabel=%s in_place=%s: %r" % (iso, con, rel, ip, e))
+                continue
+            if ip:
+                R = T
+            else:
+                C({frozenset(m) for m in T.edges.members()} == sm and list(T.nodes) == snodes, ("sc-cleanup", "copy-mode-changed-the-input"), "")
+            keep = [v for v in snodes if iso or any(v in m for m in sm)]
+            if con:
+                cs = comps(keep, [m for m in sm])
+                big = max(map(len, cs)) if cs else 0
+                cands = [c for c in cs if len(c) == big]
+            else:
+                cands = [set(keep)]
+            back = {v: (R.nodes[v].get("label", v) if rel else v) for v in R.nodes}
+            got_nodes = {back[v] for v in R.nodes}
+            tagc = "isolates=%s connected=%s relabel=%s in_place=%s" % (iso, con, rel, ip)
+            if C(got_nodes in cands, ("sc-cleanup", "node-set"), lambda: "%s: kept %r candidates %r" % (tagc, sorted(map(repr, got_nodes)), cands)):
+                got = {frozenset(back[v] for v in m) for m in R.edges.members()}
+                want = {m for m in sm if m <= got_nodes}
+                C(got == want and R.num_edges == len(want), ("sc-cleanup", "simplices"), lambda: "%s: missing %r extra %r" % (tagc, sorted(map(sorted, want - got), key=repr)[:3], sorted(map(sorted, got - want), key=repr)[:3]))
+            if rel:
+                C(sorted(R.nodes, key=repr) == sorted(range(R.num_nodes), key=repr) and sorted(R.edges, key=repr) == sorted(range(R.num_edges), key=repr), ("sc-cleanup", "labels-not-0..n-1"), tagc)
     ncomp = len(comps(nodes, mem.values())) if nodes else 0
     ctx.mark(ncomp >= 2 or len(set(mem.values())) < len(mem) or any(len(m) == 1 for m in mem.values()))
